@@ -184,9 +184,11 @@ def worlds(tier, with_wait):
                             for wait in ((None,) if not with_wait else (True, False)):
                                 wld = {'own': own, 'dur': dur, 'fails': fails,
                                        'foreign': [{'offset': o, 'subs': subs, 'wait': wait}]}
-                                pb = 1 if q else 2
-                                if q and own and o == sum(g for g, _ in own) + T + dur and not fails:
+                                pb = 1
+                                if own and o == sum(g for g, _ in own) + T + dur and (not fails or not q):
                                     pb = 2       # the race with the completion flag
+                                if not q and own and len(subs) == 1 and not dur and not fails:
+                                    pb = 2
                                 out.append((wld, pb))
     # two foreign threads
     for o2 in (0.0, T):
